@@ -7,6 +7,7 @@ CONSTANTS
   Uris <- AllUris
   Vals <- AllVals
   Updatable <- AllUpdatable
+  Suspendable <- AllSuspendable
 SPECIFICATION TraceSpec
 INVARIANT TraceInvariant
 PROPERTY RefusedUnchanged
